@@ -75,3 +75,48 @@ Print Assumptions C03_before_stop_propagates.
 Print Assumptions C03_after_loop_exact.
 Print Assumptions C03_after_hooks_final.
 Print Assumptions C03_after_events_exact.
+
+(* ---- translator tie: the hook loops [run_before], [run_after] and the
+   fallback of [after_phase] used above are equal to the definitions
+   generated from the current poorwsgi/wsgi.py
+   (Application.handler_from_before; the `for fun in self.__after` loop of
+   Application.__request__ with its `except BaseException` clause, followed
+   by the generated final part) by harness/py2v_dispatch.py, over the
+   primitives of lib/PyDispatch.v ([tag_hooks] attaches to hook number i the
+   event EvBefore i / EvAfter i its call leaves) *)
+Require Import PW.lib.PyDispatch PW.gen.DispatchGen PW.proofs.DispatchGenEq.
+
+Theorem C03_generated_before_loop_is_model :
+  forall w a req hooks i,
+    gen_handler_from_before_loop1 w a req (tag_hooks TBefore i hooks)
+    = (match fst (run_before hooks i) with
+       | Val _ => Val (Norm tt) | Exc e => Exc e end,
+       snd (run_before hooks i)).
+Proof. exact hfb_loop_eq. Qed.
+Print Assumptions C03_generated_before_loop_is_model.
+
+Theorem C03_generated_handler_from_before_is_model :
+  forall w a req,
+    gen_handler_from_before w a req
+    = (lift_unit (fst (run_before (before a) 0)), snd (run_before (before a) 0)).
+Proof. exact gen_handler_from_before_eq. Qed.
+Print Assumptions C03_generated_handler_from_before_is_model.
+
+Theorem C03_generated_after_loop_is_model :
+  forall w a f m hooks i r,
+    gen_request_loop1 w a f (DR m) (tag_hooks TAfter i hooks) (DV (PResp r))
+    = (match fst (run_after (w_known w) hooks i r) with
+       | Val r' => Val (Norm (DV (PResp r'))) | Exc e => Exc e end,
+       snd (run_after (w_known w) hooks i r)).
+Proof. exact after_loop_eq. Qed.
+Print Assumptions C03_generated_after_loop_is_model.
+
+(* gen_request_k1 = everything of __request__ after the try/except ladder:
+   the after-hook try statement, then response(start_response) *)
+Theorem C03_generated_after_phase_is_model :
+  forall w a f sr m r,
+    gen_request_k1 w a f DEnv sr (DR m) (DV (PResp r))
+    = (after_out w (fst (after_phase (w_known w) (w_isinst w) (w_builtin w) (w_page w) a m r)),
+       snd (after_phase (w_known w) (w_isinst w) (w_builtin w) (w_page w) a m r)).
+Proof. exact gen_request_k1_eq. Qed.
+Print Assumptions C03_generated_after_phase_is_model.
